@@ -13,6 +13,9 @@ import (
 	"unicode/utf8"
 
 	"ariga.io/atlas/sql/migrate"
+	"ariga.io/atlas/sql/mysql"
+	"ariga.io/atlas/sql/postgres"
+	"ariga.io/atlas/sql/sqlite"
 
 	"verif/engine/enum"
 	"verif/engine/report"
@@ -28,7 +31,7 @@ type optSet struct {
 
 var optSets = []optSet{
 	{"default", migrate.ScannerOptions{MatchBeginAtomic: true, MatchDollarQuote: true}, true},
-	{"mysql", migrate.ScannerOptions{MatchBegin: true, BackslashEscapes: true, HashComments: true}, true},
+	{"mysql", migrate.ScannerOptions{MatchBegin: true, BackslashEscapes: true, HashComments: true, ExecutableComments: true}, true},
 	{"postgres", migrate.ScannerOptions{MatchBegin: true, MatchBeginAtomic: true, MatchDollarQuote: true, EscapedStringExt: true}, true},
 	{"sqlite", migrate.ScannerOptions{MatchBegin: true}, true},
 	{"tsql-like", migrate.ScannerOptions{MatchBegin: true, MatchBeginTryCatch: true, GoCommand: true, BeginEndTerminator: true}, false},
@@ -215,6 +218,8 @@ var shapes = []shape{
 	{"SELECT e'\\'; ', 2", "p"},
 	{"SELECT 1 WHERE name LIKE'x\\'", "p"},
 	{"SELECT 1 # c;\n + 2", "m"},
+	{"/*!40101 SET NAMES utf8 */", "m"},
+	{"/*!50003 CREATE TABLE ec (a int, b text DEFAULT 'x;y') */", "m"},
 	{"CREATE FUNCTION f() RETURNS int AS $$ SELECT 1; $$ LANGUAGE sql", "dp"},
 	{"CREATE FUNCTION g() RETURNS int AS $t$ SELECT ';'; $$ $t$ LANGUAGE sql", "dp"},
 	{"CREATE TRIGGER tr AFTER INSERT ON t BEGIN UPDATE t SET a = 1; DELETE FROM u; END", "mps"},
@@ -223,7 +228,7 @@ var shapes = []shape{
 
 var seps = []string{";\n", ";", ";\n\n", ";\n-- note\n", "; /* c */ ", ";\n\n-- a;\n-- b\n"}
 var leads = []string{"", "\n\n", "-- file comment;\n\n", "/* c; */\n", "\u00a0\n\n"}
-var tails = []string{";", ";\n", "", ";\n-- bye\n"}
+var tails = []string{";", ";\n", "", ";\n-- bye\n", ";\n-- bye", "; -- bye"}
 
 type delimMode struct {
 	header string // text before the statements that switches the delimiter
@@ -276,6 +281,10 @@ func scripts(set optSet, maxStmts int, full bool, f func(Case)) {
 							for i, p := range pick {
 								text := ok[p]
 								if dm.delim == "\n\n" && strings.Contains(text, "\n\n") {
+									bad = true
+								}
+								// a statement ending in '/' followed by a delimiter starting with '/' is ambiguous text.
+								if strings.HasSuffix(text, "/") && strings.HasPrefix(dm.delim, "/") {
 									bad = true
 								}
 								if dm.delim != ";" && strings.Contains(text, dm.delim) {
@@ -362,8 +371,38 @@ func evalCase(c Case) (problem, key string) {
 		if pr := judgeScript(set.O, c, st); pr != "" {
 			return pr, classify(c.Input, "not at its reported position")
 		}
+		// the option sets above are this check's copy of what the drivers configure: the driver's own
+		// entry point must split the script the same way (or the copy no longer describes the driver).
+		if ds, derr, ok := driverScan(set.Name, c.Input); ok {
+			if derr != nil {
+				return fmt.Sprintf("the %s driver's ScanStmts rejects the well-formed script: %v", set.Name, derr), ""
+			}
+			if pr := judgeScript(set.O, c, ds); pr != "" {
+				return fmt.Sprintf("through the %s driver's ScanStmts: %s", set.Name, pr), ""
+			}
+		}
 	}
 	return "", ""
+}
+
+// driverScan scans the input through the dialect driver's own ScanStmts (ok=false: no such driver).
+func driverScan(name, in string) (st []*migrate.Stmt, err error, ok bool) {
+	defer func() {
+		if p := recover(); p != nil {
+			err = fmt.Errorf("panic: %v", p)
+		}
+	}()
+	switch name {
+	case "mysql":
+		st, err = (*mysql.Driver)(nil).ScanStmts(in)
+	case "postgres":
+		st, err = (*postgres.Driver)(nil).ScanStmts(in)
+	case "sqlite":
+		st, err = (*sqlite.Driver)(nil).ScanStmts(in)
+	default:
+		return nil, nil, false
+	}
+	return st, err, true
 }
 
 func Run(r *report.Run) {
@@ -371,7 +410,7 @@ func Run(r *report.Run) {
 	if r.Tier == "thorough" {
 		L, maxStmts, full = 5, 3, true
 	}
-	r.Rule = fmt.Sprintf("(a) every string of <=%d tokens over a %d-token alphabet (quotes, parens, comment markers, backslash, dollar tags, E', multi-byte rune, non-ASCII white space (NBSP), BEGIN/ATOMIC/END, DELIMITER, //, GO, the atlas:delimiter header) x the 4 scanner option sets the drivers use (positions, overlap and gap oracle) plus a T-SQL-like set (totality only); (b) every script of <=%d statements from %d statement shapes (per option set) x 5 leads x %d separators x 4 tails x 7 delimiter modes (default, header directive //, DELIMITER //, blank-line delimiter, two multi-byte delimiters via DELIMITER, ;;) with the intended split and line numbers known to the generator; non-trivial = input that scans to >=1 statement or an error; inputs are distinct by construction", L, len(alphabet), maxStmts, len(shapes), len(seps))
+	r.Rule = fmt.Sprintf("(a) every string of <=%d tokens over a %d-token alphabet (quotes, parens, comment markers, backslash, dollar tags, E', multi-byte rune, non-ASCII white space (NBSP), BEGIN/ATOMIC/END, DELIMITER, //, GO, the atlas:delimiter header) x the 4 scanner option sets the drivers use (positions, overlap and gap oracle) plus a T-SQL-like set (totality only); (b) every script of <=%d statements from %d statement shapes (per option set) x 5 leads x %d separators x 6 tails (incl. a line comment ended by the end of the input) x 7 delimiter modes (default, header directive //, DELIMITER //, blank-line delimiter, two multi-byte delimiters via DELIMITER, ;;) with the intended split and line numbers known to the generator, scanned with the option set and through the dialect driver's own ScanStmts; non-trivial = input that scans to >=1 statement or an error; inputs are distinct by construction", L, len(alphabet), maxStmts, len(shapes), len(seps))
 	r.Assumptions = []string{
 		"an error return is always acceptable for arbitrary token strings (the property allows 'an error or a list'); for generated well-formed scripts an error is a violation",
 		"a gap may contain white space, complete comments of the enabled kinds, the active delimiter and DELIMITER/GO command lines; an unterminated comment in a gap counts as text dropped",
